@@ -37,7 +37,7 @@ func uband(n int64) sdk.Coins { return sdk.NewCoins(sdk.NewInt64Coin("uband", n)
 // ---- base states ---------------------------------------------------------------------------------
 
 func prepPlain(w *engine.World, ctx sdk.Context, info map[string]any) sdk.Context {
-	for _, v := range bandtesting.Validators {
+	for _, v := range bandtesting.Validators[:2] { // validator 2 stays oracle-inactive in the plain base
 		tssh.Must(w.Tx(ctx, 0, oracletypes.NewMsgActivate(v.ValAddress)), "activate")
 	}
 	info["members"] = tssh.Accounts(3, 1)
@@ -172,6 +172,10 @@ func Alphabet(info map[string]any) []*twin.TxGen {
 	add("oracle.edit-os.by-owner", bandtesting.Owner, oracletypes.NewMsgEditOracleScript(1, "n2", "d2", "s2", "u2", testdata.WasmExtra1, bandtesting.Owner.Address, bandtesting.Owner.Address))
 	add("oracle.edit-os.not-owner", B, oracletypes.NewMsgEditOracleScript(1, "n", "d", "s", "u", []byte("not wasm"), B.Address, B.Address))
 	add("oracle.activate.already", valAcc(0), oracletypes.NewMsgActivate(valAcc(0).ValAddress))
+	add("oracle.activate.v2", valAcc(2), oracletypes.NewMsgActivate(valAcc(2).ValAddress))
+	add("oracle.edit-ds.by-owner", bandtesting.Owner, oracletypes.NewMsgEditDataSource(1, "n", "d", []byte("exec2"), uband(1), bandtesting.Owner.Address, bandtesting.Owner.Address, bandtesting.Owner.Address))
+	add("multi.edit-ds-then-request", bandtesting.Owner, oracletypes.NewMsgEditDataSource(1, "n", "d", oracletypes.DoNotModifyBytes, uband(1), bandtesting.Owner.Address, bandtesting.Owner.Address, bandtesting.Owner.Address),
+		oracletypes.NewMsgRequestData(1, []byte("cd"), 1, 1, "c", big, bandtesting.TestDefaultPrepareGas, bandtesting.TestDefaultExecuteGas, bandtesting.Owner.Address, oracletypes.ENCODER_UNSPECIFIED))
 	add("oracle.activate.not-validator", A, oracletypes.NewMsgActivate(sdk.ValAddress(A.Address)))
 	add("oracle.update-params.not-authority", A, oracletypes.NewMsgUpdateParams(A.Address.String(), oracletypes.DefaultParams()))
 	// ---- tss ----
@@ -284,6 +288,10 @@ func AuthoritySims(app interface{}, info map[string]any) []*twin.TxGen {
 	fp.MaxCurrentFeeds = 1
 	fp.PowerStepThreshold = 50
 	fp.CooldownTime = 1
+	fp.PriceQuorum = "0.95"
+	fp.GracePeriod = 1
+	fp.MinInterval = 1
+	fp.MaxInterval = 2
 	tp := tunneltypes.DefaultParams()
 	tp.BasePacketFee = uband(999)
 	tp.MinDeposit = uband(1)
